@@ -7,6 +7,7 @@ import (
 	"os"
 	"os/exec"
 	"sort"
+	"strconv"
 	"strings"
 	"text/template"
 	"time"
@@ -232,6 +233,55 @@ func compare(c *Case, ans []string, r *RealOut) []Mismatch {
 			if (k[0] == 'p' && len(k) > 1 && k[1] >= '0' && k[1] <= '9') || (k[0] == 'n' && strings.Contains(k, ".")) {
 				f[k] = v
 			}
+		}
+	}
+	// GetRequiredArg* calls after the parse: value or failure, what is written, the list handed back
+	for i, ra := range c.ReqArgs {
+		if idx >= len(ans) {
+			add("driver", "answer", "", "missing R")
+			return ms
+		}
+		_, rf := parseAnswer(ans[idx])
+		idx++
+		if _, none := rf["none"]; none || f["st"] != "ok" || r.HasErr {
+			continue
+		}
+		want := "?"
+		switch rf["st"] {
+		case "ok":
+			v, _ := unhx(rf["v"])
+			switch ra.Kind {
+			case 0:
+				want = "ok v=" + hx(v)
+			case 1:
+				n, _ := strconv.Atoi(v)
+				want = "ok i=" + strconv.Itoa(n)
+			default:
+				x, _ := strconv.ParseFloat(v, 64)
+				want = "ok f=" + floatBits(x)
+			}
+		case "missing":
+			head := text.ErrorMissingRequiredArgument + "\n"
+			if rf["named"] != "none" {
+				name, _ := unhx(rf["named"])
+				head = fmt.Sprintf(text.ErrorMissingRequiredNamedArgument+"\n", name)
+			}
+			help, _ := unhx(rf["help"])
+			want = "missing w=" + hx(head+help)
+		case "convint":
+			a, _ := unhx(rf["a"])
+			want = "err:" + hx(fmt.Sprintf(text.ErrorConvertArgumentToInt, a)) + " w=" + hx("")
+		case "convfloat":
+			a, _ := unhx(rf["a"])
+			want = "err:" + hx(fmt.Sprintf(text.ErrorConvertArgumentToFloat64, a)) + " w=" + hx("")
+		}
+		want += " rest=" + rf["rest"]
+		got := "(not called)"
+		if i < len(r.ReqArgRes) {
+			got = r.ReqArgRes[i]
+		}
+		if want != got {
+			add("reqarg", fmt.Sprintf("call%d", i), want, got)
 		}
 	}
 	// values and views are compared on success, and on failures that happen before any option is touched
